@@ -593,6 +593,11 @@ class Type1TagMemoryReader(object):
 
 
 def activate(clf, target):
+    if not target.rid_res:
+        # SENS_RES byte 2 looks like a Type 1 Tag but the RID response,
+        # mandatory for the Type 1 Tag platform, was not received.
+        log.debug("no RID response, can't be operated as a type 1 tag")
+        return None
     import nfc.tag.tt1_broadcom
     tag = nfc.tag.tt1_broadcom.activate(clf, target)
     return tag if tag is not None else Type1Tag(clf, target)
